@@ -255,6 +255,73 @@ struct Engine {
             }
         }
     }
+    // set / rst / chng ##imm16, W for the stt/mod words: the word is read, combined with the immediate, the M and Z flags follow the 16-bit
+    // result, and the result is written back through the layout - also when it equals what was read (a write-1-to-clear bit still clears,
+    // flag bits inside the word take the written value)
+    void AlbCase(const Word& w, const VState& s0, u16 imm, const std::string& sname) {
+        if (w.which < 3 || w.which > 9)
+            return;
+        const int idx = w.which <= 5 ? w.which - 3 : w.which - 6 + 4;
+        VState s = s0;
+        s.sp = 0x0800, s.pc = 0x1000, s.rep = 0, s.ie = 0, s.prpage = 0, s.sat = 1;
+        s.ip[0] = s.ip[1] = s.ip[2] = s.ipv = 0;
+        static const u16 base_op[3] = {0x43C8, 0x4388, 0x0038};
+        static const char* opn[3] = {"set", "rst", "chng"};
+        for (int op = 0; op < 3; ++op) {
+            u16 words[2] = {(u16)(base_op[op] | idx), imm};
+            VState out, want = s;
+            RunResult rr;
+            impl.api->run(impl.m, &s, words, 2, 1, &out, &rr);
+            ++res.evaluations, ++res.transitions, ++res.traces_validated;
+            if (rr.outcome != OUT_OK)
+                continue;
+            u16 bv = ModelGet(s, w);
+            u16 result = op == 0 ? (u16)(imm | bv) : op == 1 ? (u16)(~imm & bv) : (u16)(imm ^ bv);
+            want.fm = result >> 15, want.fz = result == 0;
+            ModelSet(want, w, result);
+            want.pc = s.pc + 2;
+            std::string d = FirstDiff(fields, out, want);
+            if (!d.empty())
+                Fail(Fmt("alb:%s:%s:%s", opn[op], w.name, result == bv ? "value-unchanged" : "value-changed"),
+                     Fmt("%s ##%04X,%s (opcode %04X) from '%s' with the word reading %04X: field %s differs from writing %04X through the layout", opn[op], imm, w.name, words[0], sname.c_str(),
+                         bv, d.c_str(), result),
+                     Fmt("c20 alb %d %u %s", w.which, imm, SerState(s).c_str()));
+        }
+    }
+    // the dedicated load instructions (load stepi/stepj/modi/modj/page/ps/ps01/movpd with every immediate): afterwards every word still
+    // reads what its layout says for the fields the register file holds - a field never holds more bits than its word shows
+    void LoadInstructions(const VState& s0) {
+        struct L {
+            const char* name;
+            u16 base;
+            int bits, shift;
+        };
+        static const L loads[] = {{"load stepi", 0xDB80, 7, 0}, {"load stepj", 0xDF80, 7, 0}, {"load modi", 0x0200, 9, 0}, {"load modj", 0x0A00, 9, 0}, {"load page", 0x0400, 8, 0},
+                                  {"load ps", 0x4D80, 2, 0},    {"load ps01", 0x0010, 4, 0},  {"load movpd", 0xD7D8, 2, 1}};
+        for (auto& l : loads)
+            for (u32 v = 0; v < (1u << l.bits); ++v) {
+                VState s = s0;
+                s.sp = 0x0800, s.pc = 0x1000, s.lp = 0, s.bcn = 0, s.rep = 0, s.ie = 0, s.prpage = 0;
+                u16 words[2] = {(u16)(l.base | (v << l.shift)), 0};
+                VState out;
+                RunResult rr;
+                impl.api->run(impl.m, &s, words, 2, 1, &out, &rr);
+                ++res.evaluations, ++res.transitions, ++res.traces_validated;
+                if (rr.outcome != OUT_OK)
+                    continue;
+                for (auto& w : this->words) {
+                    u16 got = impl.api->pseudo_get(&out, w.which), want = ModelGet(out, w);
+                    if (got != want) {
+                        Fail(Fmt("load-instruction:%s:%s", l.name, w.name),
+                             Fmt("after %s #%X (opcode %04X) the word %s reads %04X, its layout applied to the register fields gives %04X (a field holds bits its word does not show)", l.name, v,
+                                 words[0], w.name, got, want),
+                             Fmt("c20 lod %u %s", words[0], SerState(s).c_str()));
+                        break;
+                    }
+                }
+                digests.insert(Mix(words[0]) ^ 0x10AD);
+            }
+    }
     // icr has its own instructions: mov #imm5,icr (read-modify-write of bits 0..4) ; mov r0,icr ; mov icr,Ab
     void IcrCase(const VState& s0, int depth, u16 v, const std::string& sname) {
         const Word& w = words.back(); // icr
@@ -479,6 +546,40 @@ inline int RunReplay(const std::string& r, Result& res) {
     {
         unsigned op;
         int a, b;
+        if (r.rfind("c20 alb ", 0) == 0) {
+            int which, used = 0;
+            unsigned imm;
+            if (std::sscanf(r.c_str(), "c20 alb %d %u %n", &which, &imm, &used) != 2)
+                return 2;
+            VState st;
+            if (!ParseState(r.substr(used), st))
+                return 2;
+            Engine e(res);
+            for (auto& w : e.words)
+                if (w.which == which)
+                    e.AlbCase(w, st, (u16)imm, "replayed");
+            for (auto& x : res.violations)
+                quiet.Say(Fmt("  %s\n    %s\n", x.key.c_str(), x.text.c_str()));
+            return res.violations.empty() ? 0 : 1;
+        }
+        if (r.rfind("c20 lod ", 0) == 0) {
+            unsigned opc;
+            int used = 0;
+            if (std::sscanf(r.c_str(), "c20 lod %u %n", &opc, &used) != 1)
+                return 2;
+            VState st;
+            if (!ParseState(r.substr(used), st))
+                return 2;
+            Engine e(res);
+            e.LoadInstructions(st);
+            std::vector<Violation> keep;
+            for (auto& x : res.violations)
+                if (x.replay.rfind(Fmt("c20 lod %u ", opc), 0) == 0)
+                    keep.push_back(x);
+            for (auto& x : keep)
+                quiet.Say(Fmt("  %s\n    %s\n", x.key.c_str(), x.text.c_str()));
+            return keep.empty() ? 0 : 1;
+        }
         if (std::sscanf(r.c_str(), "c20 stp %u", &op) == 1) {
             Engine e(res);
             DecodeInfo d;
@@ -589,8 +690,16 @@ inline void Run(const Args& args, Result& res) {
                                 if (k < 4)
                                     v = k == 0 ? 0 : k == 1 ? 0xFFFF : k == 2 ? 0x5555 : 0xAAAA;
                                 e.InstrCase(w, states[si].second, v, states[si].first);
+                                e.AlbCase(w, states[si].second, v, states[si].first);
+                                if (k < 8) { // immediates that leave the word as it is: 0 / all ones / the word's own value
+                                    u16 own = ModelGet(states[si].second, w);
+                                    e.AlbCase(w, states[si].second, k & 1 ? own : (u16)~own, states[si].first);
+                                }
                             }
                 }
+                if ((job++ % cnt) == idx)
+                    for (size_t si = 0; si < 8; ++si)
+                        e.LoadInstructions(states[si].second);
                 if ((job++ % cnt) == idx)
                     for (size_t si = 0; si < 8; ++si)
                         for (int depth : {0, 1, 2, 4})
@@ -618,7 +727,8 @@ inline void Run(const Args& args, Result& res) {
                "written, RO bits kept, lp write-1-to-clear, st0.L sets both limit flags, 4-bit accumulator extension sign-extended) on every field, "
                "every word then reads what the layout says (aliases), st0.L = stt0.LM|VL; depth-2 writes of every pair of words that share a field "
                "over 256x256 values; mov ##imm/push/pop instruction paths for 64 values x 8 states; icr's own instructions (mov #imm5 for all 32 "
-               "immediates, mov r0,icr, mov icr,a0) at loop depths 0,1,2,4; for every opcode whose form selects a register through ar/arp: all 4 (x4) offset "
+               "immediates, mov r0,icr, mov icr,a0) at loop depths 0,1,2,4; set/rst/chng ##imm on the stt/mod words (also with immediates that leave the word unchanged); "
+               "the dedicated load instructions with every immediate (all words still read their layout); for every opcode whose form selects a register through ar/arp: all 4 (x4) offset "
                "codes written into the selected slot of the words with decoys elsewhere - the addresses the instruction touches next to the selected "
                "register are that register's value or its value displaced by exactly that slot's offset (the interpreter's reading of the word); and with step code k in the slots the "
                "register ends where the directly spelled modr rN <step k> leaves it (codes 0..5, linear and modulo, both modes)";
